@@ -768,6 +768,10 @@ func (env *Env) call(x *ECall) SVal {
 		}
 		i := env.value(env.eval(x.Args[0]))
 		return SVal{T: sel(arr, i.T), Typ: tInt, Sort: "Int"}
+	case "weekday":
+		// weekday(d): time.Weekday of a day number (0001-01-01 is a Monday)
+		dv := env.value(env.eval(x.Args[0]))
+		return SVal{T: app("mod", app("+", dv.T, "1"), "7"), Typ: tInt, Sort: "Int"}
 	case "neginf":
 		// neginf(): math.Inf(-1) as the program sees it (an uninterpreted real below every finite value only by axiom)
 		return SVal{T: app(d.Fun("math_Inf", []string{"Int"}, "Real"), "(- 1)"), Typ: types.Typ[types.Float64], Sort: "Real"}
